@@ -84,6 +84,22 @@ def cases(seed, tier):
         c["variant"] = j
         generic.add_device_faults(rng, c, dv, k=1)
         yield c
+    # a status that fails while the engine is paused (pause lands right after the operation was started, virtual
+    # time passes during the pause, then resume): the failure still has to reach the plan by the wait on its group
+    started = []  # (dev, method, occ, index of the message that made the call)
+    cur = None
+    for e in dv.evs:
+        if e.kind == "msg":
+            cur = e.d["n"]
+        elif e.kind == "dev" and e.d["method"] in generic.STATUS_METHODS and "occ" in e.d and cur is not None:
+            started.append((e.d["dev"], e.d["method"], e.d["occ"], cur))
+    for j, (dev, meth, occ, n_) in enumerate(rng.sample(started, min(3, len(started)))):
+        c = copy.deepcopy(case)
+        c["variant"] = f"fail-while-paused-{j}"
+        c["devices"][dev].setdefault("faults", {})[f"{meth}#{occ}"] = {"kind": "status_fail", "exc": "RuntimeError", "delay": rng.choice([0.2, 0.6])}
+        c["script"][0]["inject"] = [{"id": "p", "at": {"msg": n_, "plus": rng.choice([1, 2, 3])}, "do": "pause"}]
+        c["script"][0]["decisions"] = [{"do": "sleep", "t": 1.0}, {"do": "resume"}]
+        yield c
 
 
 def check(res):
